@@ -9,12 +9,6 @@ abbrev Str := List Nat
 inductive Mode | brk | flat
 deriving DecidableEq, Repr, Inhabited
 
-/-- Annotation values.  `tok n` = the `n`-th member of `syntax.Token` (table in `Generated.lean`),
-`comment s` = `CommentAnnotation(s)`, `other n` = any other user annotation. -/
-inductive Ann
-  | tok (n : Nat) | comment (s : Str) | other (n : Nat)
-deriving DecidableEq, Repr, Inhabited
-
 /-- One character of a Python `str`/`bytes` value together with the CPython classification bits the
 model cannot compute for itself (they are inputs; theorems quantify over them). -/
 structure PChar where
@@ -22,6 +16,12 @@ structure PChar where
   printable : Bool := true     -- str.isprintable()
   word : Bool := false         -- matches \w  (re, unicode for str / ascii for bytes)
   space : Bool := false        -- matches \s
+deriving DecidableEq, Repr, Inhabited
+
+/-- Annotation values.  `tok n` = the `n`-th member of `syntax.Token` (table in `Generated.lean`),
+`comment s` = `CommentAnnotation(s)` (the text with its classification bits), `other n` = any other user annotation. -/
+inductive Ann
+  | tok (n : Nat) | comment (s : List PChar) | other (n : Nat)
 deriving DecidableEq, Repr, Inhabited
 
 /-- What `pretty_str` closes over (prettyprinter.py:1827-1837). -/
